@@ -99,7 +99,7 @@ def stored(c, name):
 
 def fragments():
     return ['plain', 'a//b', 'a/*b*/c', '/*', '*/', '#define X', '#if 0', 'MACRO', 'say \\"hi\\"', 'back\\\\slash', 'end\\\\', 'tab\\there', 'nl\\n', 'all\\a\\b\\f\\v\\r\\t\\n', 'nul\\0mid',
-            'trail\\0', '', ' ', 'it\'s', 'q\\"//x', '@1@', 'a @0@ b', 'semi;colon', '{brace}', '\\\\\\"', 'x\\\\n', '%d', 'MACRO MACRO', '#include <x.h>', 'see #include \\"y.h\\" here', '#error no', '#endif', 'a \\\\', "'", '??/']
+            'trail\\0', '', ' ', 'it\'s', 'q\\"//x', '@1@', 'a @0@ b', 'semi;colon', '{brace}', '\\\\\\"', 'x\\\\n', '%d', 'MACRO MACRO', '#include <x.h>', 'see #include \\"y.h\\" here', '#error no', '#endif', 'a \\\\', "'", '??/', 'C:\\\\x86\\\\BIN', '\\\\x41', 'a\\\\n\\\\t', '\\\\0\\\\a']
 
 
 def programs(tier):
@@ -134,6 +134,8 @@ def programs(tier):
         P.append(('local-init-tern/%d/%d' % (a, b), pre + 'char k; char *gp;\nvoid main() { char *q = k ? ("%s") : "%s"; gp = q; }\n' % (fa, fb), [('cctmp0', ref_decode(fa) + [0]), ('cctmp1', ref_decode(fb) + [0])]))
         P.append(('local-init-call/%d/%d/%d' % (a, b, cc), pre + 'char *g1; char *g2; char *g3; char r;\nchar g(char *x) { g2 = x; return 1; }\nchar pick(char *p, char q, char *s) { g1 = p; g3 = s; return q; }\n'
                   'void main() { char c = pick(("%s"), g("%s"), "%s"); r = c; }\n' % (fa, fb, fc), [('cctmp0', ref_decode(fa) + [0]), ('cctmp1', ref_decode(fb) + [0]), ('cctmp2', ref_decode(fc) + [0])]))
+        P.append(('local-init-sum-of-calls/%d/%d' % (a, b), pre + 'char *g1; char *g2; char r;\nchar f(char *s) { if (r) g2 = s; else g1 = s; r = 1; return 2; }\nvoid main() { r = 0; char t = f("%s") + f("%s"); r = t; }\n' % (fa, fb),
+                  [('cctmp0', ref_decode(fa) + [0]), ('cctmp1', ref_decode(fb) + [0])]))
         P.append(('local-init-two-decls/%d/%d' % (a, b), pre + 'char *g1; char *g2;\nvoid main() { char *p = ("%s"); char *q = "%s"; g1 = p; g2 = q; }\n' % (fa, fb), [('cctmp0', ref_decode(fa) + [0]), ('cctmp1', ref_decode(fb) + [0])]))
     # character constants
     for ch, code in [('a', 97), (' ', 32), ('\\n', 10), ('\\t', 9), ('\\0', 0), ('\\\\', 92), ("\\'", 39), ('"', 34), ('/', 47), ('*', 42), ('#', 35), ('\\f', 12), ('\\v', 11), ('\\a', 7), ('\\b', 8), ('\\r', 13), ('@', 64)]:
